@@ -40,6 +40,8 @@ def worker(job):
     state["reply"] = True
     sess.__enter__()  # discovery (if needed) + time synchronisation, keys installed
     state["reply"] = False
+    # everything sent once keys are installed belongs to the first installation: the time-sync probe too
+    pre = [r for r in agent.reqs if not (r.m and r.version == 3 and r.m["usm"]["engine_id"] == b"")]
     user = rigp.make_user(cfg, agent.engine_id)
 
     def bad(sig, msg, raw=None):
@@ -93,9 +95,11 @@ def worker(job):
         # wait for the agent thread to drain its socket
         import time
         t_end = time.time() + 10
-        while len(agent.reqs) - n0 < len(sent_oids) and time.time() < t_end:
+        while len(agent.reqs) - n0 < len(sent_oids) and time.time() < t_end:  # (sent_oids: this installation's sends)
             time.sleep(0.01)
         reqs = agent.reqs[n0:]
+        if inst == 0:
+            reqs, sent_oids = pre + reqs, [None] * len(pre) + sent_oids
         if len(reqs) != len(sent_oids):
             res.setdefault("inconclusive", []).append("%d datagrams sent, %d seen by the agent (socket buffer overflow?)" % (len(sent_oids), len(reqs)))
             continue
